@@ -346,11 +346,6 @@ class PyFat(object):
                     # Odd: Keep high 12-bits of word
                     self.fat[cluster] >>= 4
 
-                if math.ceil(offset) == (fat_size - 1):
-                    # Sector boundary case for FAT12
-                    del self.fat[-1]
-                    break
-
             elif self.fat_type == self.FAT_TYPE_FAT16:
                 self.fat[cluster] = struct.unpack("<H",
                                                   fats[0][int(curr):
